@@ -397,6 +397,54 @@ def rule_f(ctx):
     ctx.note('C05.f(i): no strip-family call sites left in io/file_system.py')
 
 
+def rule_f2(ctx):
+  """The /mem prefix is removed exactly once on every route: a path that
+  already went through the normaliser is never handed to a method that
+  normalises its argument again ('/mem/mem/x' would lose both components)."""
+  idx = ctx.index
+  c = idx.find_class('pyglove.core.io.file_system.MemoryFileSystem')
+  if c is None:
+    raise AnalysisError('MemoryFileSystem vanished')
+  norm = '_internal_path'
+  # methods that normalise (one of) their parameters themselves
+  normalising = {}
+  for m in c.methods.values():
+    ps = [p for p in A.param_names(m.node) if p != 'self']
+    for call in A.calls_in(m.node):
+      if A.call_name(call) == f'self.{norm}' and call.args and isinstance(call.args[0], ast.Name) and call.args[0].id in ps:
+        normalising.setdefault(m.name, set()).add(ps.index(call.args[0].id))
+  if not normalising:
+    raise AnalysisError('no method of MemoryFileSystem normalises its path')
+  bad = []
+  n = 0
+  for m in c.methods.values():
+    # locals holding an already normalised path (or a piece of one)
+    normed = set()
+    changed = True
+    while changed:
+      changed = False
+      for x in ast.walk(m.node):
+        if isinstance(x, ast.Assign):
+          v = x.value
+          if A.has_call(v, lambda d: d == f'self.{norm}') or (A.names_read(v) & normed):
+            for t in x.targets:
+              for nm in A.assigned_names(t):
+                if nm not in normed:
+                  normed.add(nm)
+                  changed = True
+    for call in A.calls_in(m.node):
+      d = A.call_name(call) or ''
+      if d.startswith('self.') and d.split('.')[1] in normalising:
+        n += 1
+        for i in normalising[d.split('.')[1]]:
+          if i < len(call.args) and (A.names_read(call.args[i]) & normed or
+                                     A.has_call(call.args[i], lambda dd: dd == f'self.{norm}')):
+            bad.append(f'{m.name}: `{A.unparse(call, 60)}` passes an already normalised path (line {call.lineno})')
+  ctx.ob('C05.f', c.fq + '#prefix-once', not bad,
+         'the file-system prefix is stripped exactly once per path (no normalised path is normalised again)',
+         c.loc, '; '.join(bad) + " - '/mem/mem/f' is then looked up or created as '/f'")
+
+
 def rule_g(ctx):
   idx = ctx.index
   m = idx.module(JC.rstrip('.'))
@@ -689,6 +737,7 @@ def run(ctx):
   rule_d(ctx)
   rule_e(ctx)
   rule_f(ctx)
+  rule_f2(ctx)
   rule_g(ctx)
   rule_h(ctx)
   rule_i(ctx)
